@@ -38,9 +38,21 @@ def _(data: bytes, length: int, padding: U8) -> bytes:
     sample(length=Range(0, 5000))
 
 
+# numeric patterns (instantiated: 1, 2, 3, 4, 5 and 8 bytes long; the block size is arbitrary): the block repeats the big-endian digits of the number
+NUMERIC_PATTERNS = {"0x5A": b"\x5a", "0x1234": b"\x12\x34", "0xABCDEF": b"\xab\xcd\xef", "0xDEADBEEF": b"\xde\xad\xbe\xef", "0x0102030405": b"\x01\x02\x03\x04\x05",
+                    "0x1122334455667788": b"\x11\x22\x33\x44\x55\x66\x77\x88"}
+concrete_ok("spsdk.utils.misc:value_to_bytes")
+
+
+def numeric_digits(pattern):
+    return NUMERIC_PATTERNS.get(pattern, b"\x00")
+
+
 @contract("spsdk.utils.misc:BinaryPattern.get_block")
-def _(self: Obj(BinaryPattern, _pattern=OneOf("zeros", "ones", "inc")), size: Nat) -> bytes:
+def _(self: Obj(BinaryPattern, _pattern=OneOf("zeros", "ones", "inc", "0x5A", "0x1234", "0xABCDEF", "0xDEADBEEF", "0x0102030405", "0x1122334455667788")), size: Nat) -> bytes:
     ensures(len(result) == size, label="length")
+    ensures(implies(self._pattern in NUMERIC_PATTERNS, forall(0, size, lambda k: result[k] == numeric_digits(self._pattern)[k % len(numeric_digits(self._pattern))])),
+            label="numeric-pattern-repeats-its-digits-up-to-the-size")
     ensures(implies(self._pattern == "zeros", forall(0, size, lambda k: result[k] == 0)), label="zeros")
     ensures(implies(self._pattern == "ones", forall(0, size, lambda k: result[k] == 0xFF)), label="ones")
     ensures(implies(self._pattern == "inc", forall(0, size, lambda k: result[k] == k % 256)), label="inc")
